@@ -377,8 +377,10 @@ structure Cfg where
   ppidMapCatch : List String        -- ppid_map()
   asDictCatch : List String         -- psutil.Process.as_dict: classes replaced by ad_value
   iterCatch : List String           -- process_iter: classes that drop the pid
-  childrenCatch : List String       -- psutil.Process.children
+  childrenCatch : List String       -- psutil.Process.children (non recursive branch)
+  childrenRecCatch : List String    -- psutil.Process.children (recursive branch)
   parentCatch : List String         -- psutil.Process.parent
+  parentsCatch : List String        -- psutil.Process.parents: classes that end the walk (`break`) around `proc.parent()`; [] = no try
   initClauses : List (List String × String)   -- psutil.Process._init: classes ↦ "pass" | "raise NoSuchProcess"
   runningClauses : List (List String × String) -- is_running: classes ↦ "return True" | "return False"
   nameCatch : List String           -- psutil.Process.name, around cmdline()
@@ -961,6 +963,135 @@ def parent (o : Obj) : M Val := do
             if pt ≤ ctime then pure (.proc pp) else pure .none)
         (fun e => if catches cfg.parentCatch e then some (pure .none) else none)
 
+/-! ### children(recursive=True)
+
+    ```
+    reverse_ppid_map[ppid].append(pid)            # for every (pid, ppid) of the map, in map order
+    seen = set(); stack = [self.pid]
+    while stack:
+        pid = stack.pop()
+        if pid in seen: continue
+        seen.add(pid)
+        for child_pid in reverse_ppid_map[pid]:
+            try:
+                child = Process(child_pid)
+                intime = self.create_time() <= child.create_time()
+                if intime: ret.append(child); stack.append(child_pid)
+            except (NoSuchProcess, ZombieProcess): pass
+    ```
+    The `while` loop has no syntactic bound; the model takes a fuel argument (one unit per `pop`).
+    Every entry of the map is looked at most once (its parent is put in `seen` when its list is walked),
+    so there are at most `len(map) + 1` pops: `childrenRec` supplies exactly that much, and the safety
+    theorems are proved for EVERY fuel value. -/
+
+/-- `for child_pid in reverse_ppid_map[pid]`: the children accepted, in order -/
+def childrenRecInner (o : Obj) : List Nat → M (List Nat)
+  | [] => pure []
+  | q :: rest => do
+    let r ← tryCatch
+              (do let ch ← mkProcess cfg q
+                  let mine ← createTime cfg o
+                  let theirs ← createTime cfg ch
+                  pure (some (decide (mine ≤ theirs))))
+              (fun e => if catches cfg.childrenRecCatch e then some (pure none) else none)
+    let more ← childrenRecInner o rest
+    match r with
+    | some true => pure (q :: more)
+    | _ => pure more
+
+/-- the `while stack` loop: fuel, the ppid map, the stack (top first), `seen`, `ret` so far -/
+def childrenRecWalk (o : Obj) : Nat → List (Nat × Nat) → List Nat → List Nat → List Nat → M (List Nat)
+  | 0, _, _, _, ret => pure ret
+  | _ + 1, _, [], _, ret => pure ret
+  | fuel + 1, pm, pid :: stack, seen, ret =>
+    if seen.contains pid then childrenRecWalk o fuel pm stack seen ret
+    else do
+      let kids := (pm.filter (fun x => x.2 == pid)).map (·.1)
+      let acc ← childrenRecInner cfg o kids
+      -- `stack.append` in order: the last accepted child is popped first
+      childrenRecWalk o fuel pm (acc.reverse ++ stack) (pid :: seen) (ret ++ acc)
+
+def childrenRecFuel (o : Obj) (fuel : Option Nat) : M Val := do
+  raiseIfPidReused cfg o
+  let pm ← Plat.ppidMap cfg
+  let pm := if cfg.childrenPopSelf then pm.filter (fun x => x.1 != o.pid) else pm
+  let l ← childrenRecWalk cfg o (fuel.getD (pm.length + 1)) pm [o.pid] [] []
+  pure (.procs l)
+
+/-- children(recursive=True) -/
+def childrenRec (o : Obj) : M Val := childrenRecFuel cfg o none
+
+/-! ### parents()
+
+    ```
+    seen = {self.pid}; proc = self.parent()
+    while proc is not None and proc.pid not in seen:
+        seen.add(proc.pid); parents.append(proc); proc = proc.parent()
+    ```
+    `parent()` is called on the object itself and then on every ancestor object it returned. What
+    differs between those calls: `_LOWEST_PID` (module global, written by the first `pids()`), and
+    the object's `_create_time` cache (an ancestor returned by parent() has it filled by the
+    `parent.create_time()` comparison, even when its `_ident` holds None because `Process(ppid)`
+    swallowed an AccessDenied). -/
+
+/-- `pids()[0]` (sets `_LOWEST_PID`) -/
+def lowestPid : M Nat := do
+  let pids ← accListdir .root
+  match pids.foldl (fun (m : Option Nat) x => match m with | none => some x | some y => some (min x y)) none with
+  | none => throw .indexError
+  | some lowest => pure lowest
+
+/-- the body of parent() once `lowest_pid` is known, on an object whose `_create_time` cache holds
+    `cached`: the parent object and its create time (cached on it from now on) -/
+def parentCore (lowest : Nat) (o : Obj) (cached : Option Nat) : M (Option (Obj × Nat)) :=
+  if o.pid == lowest then pure none
+  else do
+    let pp ← ppid cfg o
+    let ctime ← (match cached with
+                 | some c => pure c
+                 | none => createTime cfg o)
+    tryCatch
+      (do let par ← mkProcess cfg pp
+          let pt ← createTime cfg par
+          if pt ≤ ctime then pure (some (par, pt)) else pure none)
+      (fun e => if catches cfg.parentCatch e then some (pure none) else none)
+
+/-- the `while` loop after the first ancestor: the classes of the handler around `proc.parent()`
+    (`cfg.parentsCatch`; a parameter so that the repaired loop can be stated too), fuel, the current
+    ancestor and its cached create time, `seen`; returns the further ancestors -/
+def parentsLoop (catchL : List String) (lowest : Nat) : Nat → Obj → Nat → List Nat → M (List Nat)
+  | 0, _, _, _ => pure []
+  | fuel + 1, proc, ct, seen => do
+    -- `proc = proc.parent()`; when the source wraps it in `try … except (classes): break`, the walk ends there
+    let r ← tryCatch (do let x ← parentCore cfg lowest proc (some ct); pure (some x))
+              (fun e => if catches catchL e then some (pure none) else none)
+    match r with
+    | none => pure []
+    | some none => pure []
+    | some (some (par, pt)) =>
+      if seen.contains par.pid then pure []
+      else do
+        let rest ← parentsLoop catchL lowest fuel par pt (par.pid :: seen)
+        pure (par.pid :: rest)
+
+/-- one loop iteration per distinct listed pid at most (`seen`): the number of listed processes bounds the walk -/
+def askFuel : M Nat := fun c s => (.ok (c.w.procs.length + 1), s)
+
+def parentsFuel (catchL : List String) (o : Obj) (fuel : Option Nat) : M Val := do
+  let lowest ← lowestPid
+  let r ← parentCore cfg lowest o none
+  match r with
+  | none => pure (.procs [])
+  | some (par, pt) =>
+    if par.pid == o.pid then pure (.procs [])
+    else do
+      let dflt ← askFuel
+      let rest ← parentsLoop cfg catchL lowest (fuel.getD dflt) par pt [par.pid, o.pid]
+      pure (.procs (par.pid :: rest))
+
+/-- parents() with `_LOWEST_PID` unset -/
+def parents (o : Obj) : M Val := parentsFuel cfg cfg.parentsCatch o none
+
 def insertSorted (x : Nat) : List Nat → List Nat
   | [] => [x]
   | y :: ys => if x ≤ y then x :: y :: ys else y :: insertSorted x ys
@@ -989,7 +1120,11 @@ def method (o : Obj) (nm : String) : Option (M Val) :=
   match nm with
   | "is_running" => some (do let (r, _) ← isRunning cfg o; pure (.bool r))
   | "children" => some (children cfg o)
+  | "children_recursive" => some (childrenRec cfg o)     -- children(recursive=True)
   | "parent" => some (parent cfg o)
+  | "parents" => some (parents cfg o)
+  -- `connections` = `deprecated_method(replacement="net_connections")`: warns, then calls net_connections()
+  | "connections" => getter cfg o "net_connections"
   | "rlimit" => some (do Plat.rlimit cfg o.pid; pure (.tuple 2))
   | _ => getter cfg o nm
 
